@@ -304,6 +304,15 @@ def handle (op : String) (args : List String) : Option String := do
       if !rest.isEmpty then none
       pure (closed nv idx)
     | _ => none
+  -- the strict predicate on known-finding class 2 (a lattice line of samples within float noise of the cutoff)
+  | "c09.holds.closed_cutoff_noise_line_witness" =>
+    match args with
+    | nv :: nt :: rest => do
+      let nv ← nat? nv; let nt ← nat? nt
+      let (idx, rest) ← takeNats (3 * nt) rest
+      if !rest.isEmpty then none
+      pure (closed nv idx)
+    | _ => none
   | "c09.holds.closed" =>
     match args with
     | nv :: nt :: rest => do
